@@ -256,6 +256,10 @@ type Pool struct {
 	// Threshold of the classifier the inputs are meant for (0: unknown); used
 	// to build inputs that sit on the first-pass (token frequency) boundary.
 	Threshold float64
+	// Partials enables the "fraction of a document + edited whole document"
+	// shape inside the concatenation kind (set by the C04 harness only, so the
+	// input streams of the other harnesses are unchanged).
+	Partials bool
 }
 
 // Input is a generated input with a description.
@@ -305,6 +309,43 @@ func (p *Pool) Gen(s *choice.Stream, maxLen int) Input {
 		desc = fmt.Sprintf("edited(%d):%s", nEdits, d.Key())
 		b = []byte(strings.Join(lines, "\n"))
 	case 3: // concatenation of two documents / scenarios
+		if p.Partials && s.Draw(2, "partial") == 0 {
+			// a verbatim fraction of a document, then the whole document with a few
+			// words replaced: claims of one document that are created out of
+			// confidence order (round 4, C04-m14)
+			d := p.Docs[s.Draw(len(p.Docs), "doc")]
+			ws := strings.Fields(string(d.Data))
+			frac := len(ws) * (3 + s.Draw(5, "fraction")) / 10
+			var sb strings.Builder
+			for i, w := range ws[:frac] {
+				sb.WriteString(w)
+				if i%10 == 9 {
+					sb.WriteByte('\n')
+				} else {
+					sb.WriteByte(' ')
+				}
+			}
+			sb.WriteString("\n" + OOV(s, s.Draw(12, "mid")) + "\n")
+			nrep := 1 + s.Draw(5, "nreplaced")
+			rep := map[int]bool{}
+			for e := 0; e < nrep && len(ws) > 0; e++ {
+				rep[s.Draw(len(ws), "replaced-word")] = true
+			}
+			for i, w := range ws {
+				if rep[i] {
+					w = oovWords[s.Draw(len(oovWords), "oov")]
+				}
+				sb.WriteString(w)
+				if i%10 == 9 {
+					sb.WriteByte('\n')
+				} else {
+					sb.WriteByte(' ')
+				}
+			}
+			desc = fmt.Sprintf("partial(%d/%d)+edited(%d):%s", frac, len(ws), nrep, d.Key())
+			b = []byte(sb.String())
+			break
+		}
 		d1 := p.Docs[s.Draw(len(p.Docs), "doc")]
 		d2 := p.Docs[s.Draw(len(p.Docs), "doc")]
 		desc = "concat:" + d1.Key() + "+" + d2.Key()
